@@ -170,7 +170,9 @@ def run_names(case: dict, seed: int, out: dict) -> None:
             except BaseException as e:  # noqa: BLE001
                 add("not_a_bijection", f"load(dump({m!r})) = load({d!r}) raised {type(e).__name__}")
         for cand in case["cands"]:
-            names = [(name_of[bits_to_int(it["v"])] if it["k"] == "m" else "nope") for it in cand["items"]]
+            junk = {"bad": ["nope", "zz"], "unhash": [["A"], {}, bytearray(b"A"), {"A"}], "nonstr": [5, None, ("A",), 1.5]}
+            names = [(name_of[bits_to_int(it["v"])] if it["k"] == "m" else junk[it["k"]][(len(cand["items"]) + pos + len(case["vals"])) % len(junk[it["k"]])])
+                     for pos, it in enumerate(cand["items"])]
             datum: Any = names[0] if cand["single"] else names
             try:
                 v = loader(datum)
